@@ -9,7 +9,11 @@ import (
 	"fmt"
 	"reflect"
 	"sort"
+	"strconv"
+	"strings"
 	"sync"
+
+	logging "github.com/formancehq/go-libs/v5/pkg/observe/log"
 
 	"github.com/formancehq/go-libs/v5/pkg/storage/bun/paginate"
 	"github.com/formancehq/go-libs/v5/pkg/storage/postgres"
@@ -47,6 +51,7 @@ type stepObs struct {
 	Loads   []uint64 // last_log_id of every pipeline row handed to the manager by a read
 	Writes  []string // non-gated writes: "create", "update:<canonical map>", "delete"
 	Drivers []string // driver lifecycle: "new", "start", "stop"
+	Panics  []string // panics of the real Batcher.Accept (recovered by the harness)
 }
 
 func u64(v any) (uint64, bool) {
@@ -320,20 +325,72 @@ func (f *fetcher) ListLogs(ctx context.Context, q common.PaginatedQuery[any]) (*
 
 // ---- exporter --------------------------------------------------------------------
 
-type factory struct{ w *world }
+// factory is the innermost drivers.Factory: it creates the scripted exporter and
+// hands out the batching configuration, exactly where the production registry
+// hands out the stored exporter configuration.
+type factory struct {
+	w        *world
+	maxItems int
+}
 
 func (f *factory) Create(ctx context.Context, id string) (drivers.Driver, json.RawMessage, error) {
 	f.w.mu.Lock()
 	f.w.obs.Drivers = append(f.w.obs.Drivers, "new")
 	f.w.mu.Unlock()
-	return &exporter{w: f.w}, nil, nil
+	cfg := fmt.Sprintf(`{"batching":{"maxItems":%d,"flushInterval":"2ns"}}`, f.maxItems)
+	return &exporter{w: f.w}, json.RawMessage(cfg), nil
 }
 
-// exporter is the scripted drivers.Driver. Accept waits at its gate; the
-// scheduler's decision is "ok" (batch received, acknowledged), "fail" (nothing
-// received, error) or "lost" (batch received but the acknowledgement is lost:
-// error). An Accept whose context was cancelled (the handler abandoned it on
-// stop) receives nothing.
+// newFactory = production wiring (module.go): the registry factory decorated by
+// drivers.NewWithBatchingDriverFactory, so the REAL drivers.Batcher sits between
+// the pipeline (DriverFacade) and the scripted exporter. The outermost layer only
+// turns a panic of Batcher.Accept into an observation (it would kill the process).
+func newFactory(w *world, maxItems int) drivers.Factory {
+	return &guardFactory{w: w, inner: drivers.NewWithBatchingDriverFactory(&factory{w: w, maxItems: maxItems}, logging.NopZap())}
+}
+
+type guardFactory struct {
+	w     *world
+	inner drivers.Factory
+}
+
+func (g *guardFactory) Create(ctx context.Context, id string) (drivers.Driver, json.RawMessage, error) {
+	d, raw, err := g.inner.Create(ctx, id)
+	if err != nil {
+		return nil, nil, err
+	}
+	return &guardDriver{Driver: d, w: g.w}, raw, nil
+}
+
+type guardDriver struct {
+	drivers.Driver
+	w *world
+}
+
+func (g *guardDriver) Accept(ctx context.Context, logs ...drivers.LogWithLedger) (errs []error, err error) {
+	defer func() {
+		if p := recover(); p != nil {
+			msg := fmt.Sprint(p)
+			if strings.Contains(msg, "nil pointer dereference") {
+				msg = "nil-pointer"
+			}
+			g.w.mu.Lock()
+			g.w.obs.Panics = append(g.w.obs.Panics, msg)
+			g.w.mu.Unlock()
+			errs, err = nil, fmt.Errorf("panic in Accept: %s", msg)
+		}
+	}()
+	return g.Driver.Accept(ctx, logs...)
+}
+
+// exporter is the scripted drivers.Driver behind the real Batcher. Accept waits at
+// its gate; the scheduler's decision is "ok" (batch received, every item
+// acknowledged), "fail" (nothing received, whole-call error), "lost" (batch
+// received but the acknowledgement is lost: whole-call error) or "rej:<k>" (the
+// call succeeds but item k is refused with an item-level error, as the
+// Elasticsearch driver does for a rejected document; the other items are
+// acknowledged). A call whose context was cancelled (the batcher was stopped)
+// receives nothing.
 type exporter struct{ w *world }
 
 func (e *exporter) Start(ctx context.Context) error {
@@ -366,11 +423,18 @@ func (e *exporter) Accept(ctx context.Context, logs ...drivers.LogWithLedger) ([
 	e.w.mu.Lock()
 	defer e.w.mu.Unlock()
 	e.w.obs.IDs = ids
-	switch d {
-	case "ok":
+	switch {
+	case d == "ok":
 		return make([]error, len(logs)), nil
-	case "lost":
+	case d == "lost":
 		return nil, errors.New("scripted: acknowledgement lost")
+	case strings.HasPrefix(d, "rej:"):
+		k, _ := strconv.Atoi(d[4:])
+		res := make([]error, len(logs))
+		if len(logs) > 0 {
+			res[k%len(logs)] = errors.New("scripted: item rejected")
+		}
+		return res, nil
 	default:
 		return nil, errors.New("scripted Accept failure")
 	}
